@@ -11,7 +11,8 @@
 import DznModel
 import DznProofs.Lemmas.Sem
 import DznProofs.C01
-open Py Scoping Ast PortSel Shell Sem Lem
+import DznProofs.C13Valid
+open Py Text Scoping Ast AstView PortSel CppGen Support Shell Sem Lem
 
 namespace C01
 
@@ -462,14 +463,39 @@ theorem rerouteIn_inv (fc : FC) (p : CppPortItf) (as : List Assign) (h : reroute
   obtain ⟨ps, hps, e⟩ := rerouteIn_event fc p ev a hf
   exact ⟨ev, hev, ps, hps, e⟩
 
-theorem rerouteOut_lhs (fc : FC) (p : CppPortItf) (as : List Assign) (h : rerouteOutEvents fc p = .ok as)
-    (a : Assign) (ha : a ∈ as) : a.lhs.obj = .bnd p.target ∧ a.lhs.dir = .out := by
+/-- the assignment `reroute_out_events` emits for one out-event of a requires port -/
+def outAssign (p : CppPortItf) (ev : Event) (ps : List LParam) : Assign :=
+  { lhs := { obj := .bnd p.target, dir := .out, ev := ev.name },
+    rhs := .post { obj := .enc p.name, dir := .out, ev := ev.name } ps (formalNames ev) (inFormalNames ev) }
+
+theorem rerouteOut_event (fc : FC) (p : CppPortItf) (ev : Event) (a : Assign)
+    (h : (do let ps ← lambdaParamsOf fc p.dzn.itf ev false
+             pure ({ lhs := { obj := .bnd p.target, dir := .out, ev := ev.name },
+                     rhs := .post { obj := .enc p.name, dir := .out, ev := ev.name } ps (formalNames ev) (inFormalNames ev) } : Assign)
+          : R Assign) = .ok a) :
+    ∃ ps, lambdaParamsOf fc p.dzn.itf ev false = .ok ps ∧ a = outAssign p ev ps := by
+  simp only [bind, Except.bind, pure, Except.pure] at h
+  split at h
+  · cases h
+  · rename_i ps hps
+    injection h with h
+    exact ⟨ps, hps, h.symm⟩
+
+theorem rerouteOut_mem (fc : FC) (p : CppPortItf) (as : List Assign) (h : rerouteOutEvents fc p = .ok as)
+    (ev : Event) (hev : ev ∈ outEvents p.dzn.itf) :
+    ∃ ps, lambdaParamsOf fc p.dzn.itf ev false = .ok ps ∧ outAssign p ev ps ∈ as := by
   unfold rerouteOutEvents at h
-  obtain ⟨ev, _, hf⟩ := mapM_mem _ _ _ h a ha
-  simp only [bind, Except.bind, pure, Except.pure] at hf
-  split at hf
-  · cases hf
-  · injection hf with hf; subst hf; exact ⟨rfl, rfl⟩
+  obtain ⟨a, ha, hf⟩ := mapM_mem_fwd _ _ _ h ev hev
+  obtain ⟨ps, hps, rfl⟩ := rerouteOut_event fc p ev a hf
+  exact ⟨ps, hps, ha⟩
+
+theorem rerouteOut_inv (fc : FC) (p : CppPortItf) (as : List Assign) (h : rerouteOutEvents fc p = .ok as)
+    (a : Assign) (ha : a ∈ as) :
+    ∃ ev ∈ outEvents p.dzn.itf, ∃ ps, lambdaParamsOf fc p.dzn.itf ev false = .ok ps ∧ a = outAssign p ev ps := by
+  unfold rerouteOutEvents at h
+  obtain ⟨ev, hev, hf⟩ := mapM_mem _ _ _ h a ha
+  obtain ⟨ps, hps, e⟩ := rerouteOut_event fc p ev a hf
+  exact ⟨ev, hev, ps, hps, e⟩
 
 theorem rerouteMcOut_lhs (fc : FC) (p : CppPortItf) (as : List Assign) (h : rerouteMcOutEvents fc p = .ok as)
     (a : Assign) (ha : a ∈ as) : a.lhs.obj = .arb p.target ∧ a.lhs.dir = .out := by
@@ -480,32 +506,32 @@ theorem rerouteMcOut_lhs (fc : FC) (p : CppPortItf) (as : List Assign) (h : rero
   · cases hf
   · injection hf with hf; subst hf; exact ⟨rfl, rfl⟩
 
-theorem stdrefProvidesOut_lhs (p : CppPortItf) (a : Assign) (ha : a ∈ stdrefProvidesOut p) :
-    a.lhs.obj = .enc p.name ∧ a.lhs.dir = .out := by
-  unfold stdrefProvidesOut at ha
-  obtain ⟨ev, _, rfl⟩ := List.mem_map.mp ha
-  exact ⟨rfl, rfl⟩
+/-- `stdref_provides_out_events`, one event -/
+def provOutAssign (p : CppPortItf) (ev : Event) : Assign :=
+  { lhs := { obj := .enc p.name, dir := .out, ev := ev.name }, rhs := .ref { obj := .bnd p.target, dir := .out, ev := ev.name } }
+/-- the encapsulee's out-events referenced to the arbitered port, one event -/
+def mcEncOutAssign (p : CppPortItf) (ev : Event) : Assign :=
+  { lhs := { obj := .enc p.name, dir := .out, ev := ev.name }, rhs := .ref { obj := .arb p.target, dir := .out, ev := ev.name } }
+/-- `stdref_requires_in_events`, one event -/
+def reqInAssign (p : CppPortItf) (ev : Event) : Assign :=
+  { lhs := { obj := .enc p.name, dir := .in_, ev := ev.name }, rhs := .ref { obj := .bnd p.target, dir := .in_, ev := ev.name } }
 
-theorem stdrefEncapsuleeOut_lhs (p : CppPortItf) (a : Assign) (ha : a ∈ stdrefEncapsuleeOut p) :
-    a.lhs.obj = .enc p.name ∧ a.lhs.dir = .out := by
-  unfold stdrefEncapsuleeOut at ha
-  obtain ⟨ev, _, rfl⟩ := List.mem_map.mp ha
-  exact ⟨rfl, rfl⟩
-
-theorem stdrefRequiresIn_lhs (p : CppPortItf) (a : Assign) (ha : a ∈ stdrefRequiresIn p) :
-    a.lhs.obj = .enc p.name ∧ a.lhs.dir = .in_ := by
-  unfold stdrefRequiresIn at ha
-  obtain ⟨ev, _, rfl⟩ := List.mem_map.mp ha
-  exact ⟨rfl, rfl⟩
+theorem stdrefProvidesOut_eq (p : CppPortItf) : stdrefProvidesOut p = (outEvents p.dzn.itf).map (provOutAssign p) := rfl
+theorem stdrefEncapsuleeOut_eq (p : CppPortItf) : stdrefEncapsuleeOut p = (outEvents p.dzn.itf).map (mcEncOutAssign p) := rfl
+theorem stdrefRequiresIn_eq (p : CppPortItf) : stdrefRequiresIn p = (inEvents p.dzn.itf).map (reqInAssign p) := rfl
 
 /-- where a constructor assignment comes from -/
 inductive Origin' (fc : FC) (pp rp : List CppPortItf) (a : Assign) : Prop
   | inEvent (p : CppPortItf) (hp : p ∈ mtsPorts pp) (ev : Event) (hev : ev ∈ inEvents p.dzn.itf) (ps : List LParam)
       (hps : lambdaParamsOf fc p.dzn.itf ev true = .ok ps) (e : a = inAssign p ev ps)
-  | encOut (p : CppPortItf) (hp : p ∈ mtsPorts pp) (h : a.lhs.obj = .enc p.name ∧ a.lhs.dir = .out)
+  | provOut (p : CppPortItf) (hp : p ∈ mtsPorts pp) (hmc : p.isMc = false) (ev : Event) (hev : ev ∈ outEvents p.dzn.itf)
+      (e : a = provOutAssign p ev)
+  | mcEncOut (p : CppPortItf) (hp : p ∈ mtsPorts pp) (hmc : p.isMc = true) (ev : Event) (hev : ev ∈ outEvents p.dzn.itf)
+      (e : a = mcEncOutAssign p ev)
   | arbOut (p : CppPortItf) (hp : p ∈ mtsPorts pp) (hmc : p.isMc = true) (h : a.lhs.obj = .arb p.target ∧ a.lhs.dir = .out)
-  | bndOut (p : CppPortItf) (hp : p ∈ mtsPorts rp) (h : a.lhs.obj = .bnd p.target ∧ a.lhs.dir = .out)
-  | encIn (p : CppPortItf) (hp : p ∈ mtsPorts rp) (h : a.lhs.obj = .enc p.name ∧ a.lhs.dir = .in_)
+  | reqOut (p : CppPortItf) (hp : p ∈ mtsPorts rp) (ev : Event) (hev : ev ∈ outEvents p.dzn.itf) (ps : List LParam)
+      (hps : lambdaParamsOf fc p.dzn.itf ev false = .ok ps) (e : a = outAssign p ev ps)
+  | reqIn (p : CppPortItf) (hp : p ∈ mtsPorts rp) (ev : Event) (hev : ev ∈ inEvents p.dzn.itf) (e : a = reqInAssign p ev)
 
 theorem mem_flatten_mapM {α} (f : α → R (List Assign)) (l : List α) (r : List (List Assign)) (h : l.mapM f = .ok r)
     (a : Assign) (ha : a ∈ r.flatten) : ∃ x ∈ l, ∃ as, f x = .ok as ∧ a ∈ as := by
@@ -513,7 +539,7 @@ theorem mem_flatten_mapM {α} (f : α → R (List Assign)) (l : List α) (r : Li
   obtain ⟨x, hx, hf⟩ := mapM_mem _ _ _ h as has
   exact ⟨x, hx, as, hf, haas⟩
 
-/-- every assignment of the generated constructor body is one of the five kinds -/
+/-- every assignment of the generated constructor body is one of six kinds -/
 theorem assign_origin (fc : FC) (sn : Str) (fac : Facilities) (pp rp : List CppPortItf) (sfns : Ids)
     (ctor : CppGen.Constructor) (assigns : List Assign)
     (h : createConstructor fc sn fac pp rp sfns = .ok (ctor, assigns)) (a : Assign) (ha : a ∈ assigns) :
@@ -526,7 +552,10 @@ theorem assign_origin (fc : FC) (sn : Str) (fac : Facilities) (pp rp : List CppP
     exact .inEvent p (List.mem_filter.mp hp).1 ev hev ps hps e
   · obtain ⟨as, has, haas⟩ := List.mem_flatten.mp ha
     obtain ⟨p, hp, rfl⟩ := List.mem_map.mp has
-    exact .encOut p (List.mem_filter.mp hp).1 (stdrefProvidesOut_lhs p a haas)
+    rw [stdrefProvidesOut_eq] at haas
+    obtain ⟨ev, hev, rfl⟩ := List.mem_map.mp haas
+    have := List.mem_filter.mp hp
+    exact .provOut p this.1 (by simpa using this.2) ev hev rfl
   · obtain ⟨p, hp, as, hf, haas⟩ := mem_flatten_mapM _ _ _ h3 a ha
     obtain ⟨ev, hev, ps, hps, e⟩ := rerouteIn_inv fc p as hf a haas
     exact .inEvent p (List.mem_filter.mp hp).1 ev hev ps hps e
@@ -535,12 +564,18 @@ theorem assign_origin (fc : FC) (sn : Str) (fac : Facilities) (pp rp : List CppP
     exact .arbOut p this.1 (by simpa using this.2) (rerouteMcOut_lhs fc p as hf a haas)
   · obtain ⟨as, has, haas⟩ := List.mem_flatten.mp ha
     obtain ⟨p, hp, rfl⟩ := List.mem_map.mp has
-    exact .encOut p (List.mem_filter.mp hp).1 (stdrefEncapsuleeOut_lhs p a haas)
+    rw [stdrefEncapsuleeOut_eq] at haas
+    obtain ⟨ev, hev, rfl⟩ := List.mem_map.mp haas
+    have := List.mem_filter.mp hp
+    exact .mcEncOut p this.1 (by simpa using this.2) ev hev rfl
   · obtain ⟨p, hp, as, hf, haas⟩ := mem_flatten_mapM _ _ _ h2 a ha
-    exact .bndOut p hp (rerouteOut_lhs fc p as hf a haas)
+    obtain ⟨ev, hev, ps, hps, e⟩ := rerouteOut_inv fc p as hf a haas
+    exact .reqOut p hp ev hev ps hps e
   · obtain ⟨as, has, haas⟩ := List.mem_flatten.mp ha
     obtain ⟨p, hp, rfl⟩ := List.mem_map.mp has
-    exact .encIn p hp (stdrefRequiresIn_lhs p a haas)
+    rw [stdrefRequiresIn_eq] at haas
+    obtain ⟨ev, hev, rfl⟩ := List.mem_map.mp haas
+    exact .reqIn p hp ev hev rfl
 
 /-- every in-event of every multi-threaded provides port has its rerouting assignment in the body -/
 theorem in_event_assigned (fc : FC) (sn : Str) (fac : Facilities) (pp rp : List CppPortItf) (sfns : Ids)
@@ -672,10 +707,11 @@ theorem generated_forwards_in_event (fc : FC) (sn : Str) (fac : Facilities) (pp 
       subst this
       refine ⟨congrArg Assign.rhs hA, by simp [inAssign, hmc], ?_⟩
       exact hfind _ (by simp [inAssign, hmc]) rfl rfl
-    | encOut q _ hl => rw [hl.1] at hko; simp [resolveObj] at hko
+    | provOut q _ _ ev' _ e => subst e; simp [provOutAssign, resolveObj] at hko
+    | mcEncOut q _ _ ev' _ e => subst e; simp [mcEncOutAssign, resolveObj] at hko
     | arbOut q _ _ hl => rw [hl.1] at hko; simp [resolveObj] at hko
-    | bndOut q _ hl => rw [hl.2] at hkd; cases hkd
-    | encIn q _ hl => rw [hl.1] at hko; simp [resolveObj] at hko
+    | reqOut q _ ev' _ ps' _ e => subst e; simp [outAssign] at hkd
+    | reqIn q _ ev' _ e => subst e; simp [reqInAssign, resolveObj] at hko
   · -- nothing overwrites the component's own handler
     intro b hb hk
     rw [has] at hb
@@ -686,13 +722,510 @@ theorem generated_forwards_in_event (fc : FC) (sn : Str) (fac : Facilities) (pp 
     | inEvent q hq ev' hev' ps' hps' e =>
       subst e
       cases hq' : q.isMc <;> simp [inAssign, hq', resolveObj] at hko
-    | encOut q _ hl => rw [hl.2] at hkd; cases hkd
+    | provOut q _ _ ev' _ e => subst e; simp [provOutAssign] at hkd
+    | mcEncOut q _ _ ev' _ e => subst e; simp [mcEncOutAssign] at hkd
     | arbOut q _ _ hl => rw [hl.1] at hko; simp [resolveObj] at hko
-    | bndOut q _ hl => rw [hl.1] at hko; simp [resolveObj] at hko
-    | encIn q hq hl =>
-      rw [hl.1] at hko
-      simp only [resolveObj] at hko
+    | reqOut q _ ev' _ ps' _ e => subst e; simp [outAssign, resolveObj] at hko
+    | reqIn q hq ev' _ e =>
+      subst e
+      simp only [reqInAssign, resolveObj] at hko
       injection hko with hko
       exact hnames q (List.mem_filter.mp hq).1 hko.symm
+
+
+/-! ### requires ports: out-events a peer raises on the boundary -/
+
+theorem mem_outEvents (i : InterfaceD) (ev : Event) (h : ev ∈ outEvents i) : ev ∈ i.events ∧ ev.dir = .out := by
+  unfold outEvents at h
+  have := List.mem_filter.mp h
+  exact ⟨this.1, by simpa using this.2⟩
+
+theorem evDirOf_out (ev : Event) (h : ev.dir = .out) : evDirOf ev = .out := by simp [evDirOf, h]
+
+/-- every out-event of every multi-threaded requires port has its posting assignment in the body -/
+theorem out_event_assigned (fc : FC) (sn : Str) (fac : Facilities) (pp rp : List CppPortItf) (sfns : Ids)
+    (ctor : CppGen.Constructor) (assigns : List Assign)
+    (h : createConstructor fc sn fac pp rp sfns = .ok (ctor, assigns))
+    (p : CppPortItf) (hp : p ∈ mtsPorts rp) (ev : Event) (hev : ev ∈ outEvents p.dzn.itf) :
+    ∃ ps, lambdaParamsOf fc p.dzn.itf ev false = .ok ps ∧ outAssign p ev ps ∈ assigns := by
+  obtain ⟨inPlain, outReq, inMc, outMc, h1, h2, h3, h4, rfl⟩ := createConstructor_inv fc sn fac pp rp sfns ctor assigns h
+  obtain ⟨as, has, hf⟩ := mapM_mem_fwd _ _ _ h2 p hp
+  obtain ⟨ps, hps, hin⟩ := rerouteOut_mem fc p as hf ev hev
+  exact ⟨ps, hps, by simp only [List.mem_append]; exact Or.inl (Or.inr (List.mem_flatten.mpr ⟨as, has, hin⟩))⟩
+
+/-- **C01 for the generated constructor** (peer → component, multi-threaded requires port): the
+    out-event a peer raises on the boundary member is queued with its arguments — nothing is
+    observed, the call returns — and when the dispatcher runs it arrives at the wrapped component's
+    same-named event of the same-named port exactly once, with the values it had at call time.
+    `hallin`: an out-event has only in-parameters (the parser refuses anything else, C15). -/
+theorem generated_forwards_requires_out (fc : FC) (sn : Str) (fac : Facilities) (pp rp : List CppPortItf) (sfns : Ids)
+    (ctor : CppGen.Constructor) (assigns : List Assign)
+    (h : createConstructor fc sn fac pp rp sfns = .ok (ctor, assigns))
+    (ir : ShellIR) (hpp : ir.provides = pp) (hrp : ir.requires = rp) (has : ir.ctorAssigns = assigns)
+    (p : CppPortItf) (hp : p ∈ mtsPorts rp) (ev : Event) (hev : ev ∈ outEvents p.dzn.itf)
+    (hinj : ∀ q ∈ pp ++ rp, q.target = p.target → q = p)
+    (hnames : ∀ q ∈ pp, q.name ≠ p.name)
+    (hevu : ∀ e ∈ p.dzn.itf.events, e.name = ev.name → evDirOf e = .out → e = ev)
+    (hfn : (ev.formals.map (·.name)).Nodup) (hallin : ∀ f ∈ ev.formals, f.dir = .in_)
+    (allPorts : List (Port × InterfaceD)) (hpa : (p.dzn.port, p.dzn.itf) ∈ allPorts) (hu : UniqueEvents allPorts)
+    (hdir : p.dzn.port.dir = .requires)
+    (gi : Option Nat) (pump runtime : Bool) (name : Str) (extra : Bool) (n : Nat)
+    (hf : facilitiesCheck ir.origin ir.structName pump runtime = none)
+    (args : List Val) (hlen : ev.formals.length = args.length) :
+    ∃ w, construct ir allPorts gi pump runtime none name extra = .ok w ∧
+      let w1 : World := { w with posted := w.posted + 1, pumpTouched := true,
+                                 queue := [{ callee := ⟨.enc p.name, .out, ev.name⟩, args := args, dangling := false }] }
+      invoke (n + 1) w ⟨.bnd p.target, .out, ev.name⟩ args = (w1, .ok none args) ∧
+      drain (n + 3) w1 =
+        ({ w with posted := w.posted + 1, pumpTouched := true, queue := [], executed := w.executed + 1,
+                  out := obsLine .comp p.name ev args true :: w.out }, none) := by
+  obtain ⟨hevm, hevd⟩ := mem_outEvents _ _ hev
+  have hout : evDirOf ev = .out := evDirOf_out ev hevd
+  obtain ⟨ps, hps, hmem⟩ := out_event_assigned fc sn fac pp rp sfns ctor assigns h p hp ev hev
+  have hnm : ps.map (·.name) = ev.formals.map (·.name) := lambdaParams_names fc p.dzn.itf ev false ps hps
+  have hrpmem : p ∈ rp := (List.mem_filter.mp hp).1
+  have hinF : inFormalNames ev = ev.formals.map (·.name) := by
+    unfold inFormalNames
+    congr 1
+    exact List.filter_eq_self.mpr (fun f hf' => by simp [hallin f hf'])
+  have hA : outAssign p ev ps = (Assign.mk ⟨.bnd p.target, .out, ev.name⟩ (.post ⟨.enc p.name, .out, ev.name⟩ ps (ps.map (·.name)) (ps.map (·.name)))) := by
+    simp [outAssign, formalNames, hnm, hinF]
+  have hfind : ∀ s : Slot, s.obj = .bnd p.target → s.dir = .out → s.ev = ev.name →
+      findEvent (ir.provides ++ ir.requires) s = some ev := by
+    intro s ho hd he
+    unfold findEvent
+    simp only [ho, hpp, hrp]
+    rw [find?_unique (pp ++ rp) (fun q => decide (q.target = p.target)) p (by simp [hrpmem]) (by simp)
+          (fun q hq hqt => hinj q hq (by simpa using hqt))]
+    simp only [Option.bind]
+    rw [he, hd]
+    exact find?_unique _ _ ev hevm (by simp [hout]) (fun e he' hq => by
+      simp only [decide_eq_true_eq] at hq
+      exact hevu e he' hq.1 hq.2)
+  obtain ⟨w, hw, hq, hassign, hcomp⟩ := constructed_store ir allPorts gi pump runtime name extra hf
+  refine ⟨w, hw, ?_⟩
+  have hb : w.get ⟨.bnd p.target, .out, ev.name⟩ =
+      some (.ir (.post ⟨.enc p.name, .out, ev.name⟩ ps (ps.map (·.name)) (ps.map (·.name))) ev [] []) := by
+    have := hassign (outAssign p ev ps) (by rw [has]; exact hmem) ev (hfind _ rfl rfl rfl) (by simp [outAssign]) ?_
+    · rw [hA] at this; exact this
+    · intro b hb hk
+      rw [has] at hb
+      obtain ⟨hkd, hke, hko⟩ := resolveSlot_obj b.lhs
+      rw [hk] at hkd hke hko
+      cases assign_origin fc sn fac pp rp sfns ctor assigns h b hb with
+      | inEvent q hq ev' hev' ps' hps' e => subst e; simp [inAssign, outAssign, resolveSlot] at hkd
+      | provOut q _ _ ev' _ e => subst e; simp [provOutAssign, outAssign, resolveObj, resolveSlot] at hko
+      | mcEncOut q _ _ ev' _ e => subst e; simp [mcEncOutAssign, outAssign, resolveObj, resolveSlot] at hko
+      | arbOut q _ _ hl => rw [hl.1] at hko; simp [outAssign, resolveObj, resolveSlot] at hko
+      | reqIn q _ ev' _ e => subst e; simp [reqInAssign, outAssign, resolveSlot] at hkd
+      | reqOut q hq ev' hev' ps' hps' e =>
+        subst e
+        obtain ⟨hevm', hevd'⟩ := mem_outEvents _ _ hev'
+        have hqt : q.target = p.target := by
+          simp [outAssign, resolveObj, resolveSlot] at hko; exact hko.symm
+        have hqp : q = p := hinj q (by simp [(List.mem_filter.mp hq).1]) hqt
+        subst hqp
+        have hen : ev'.name = ev.name := by simpa [outAssign, resolveSlot] using hke.symm
+        have hee : ev' = ev := hevu ev' hevm' hen (evDirOf_out ev' hevd')
+        subst hee
+        have : ps' = ps := by rw [hps] at hps'; injection hps' with e; exact e.symm
+        subst this
+        exact ⟨rfl, by simp [outAssign], hfind _ rfl rfl rfl⟩
+  have hc : w.get ⟨.enc p.name, .out, ev.name⟩ = some (.scripted .comp p.name ev) := by
+    have := hcomp hu p.dzn.port p.dzn.itf ev hpa hevm (Or.inr ⟨hdir, hout⟩) ?_
+    · simpa [compSlot, hout, CppPortItf.name] using this
+    · intro b hb hk
+      rw [has] at hb
+      obtain ⟨hkd, hke, hko⟩ := resolveSlot_obj b.lhs
+      rw [hk] at hkd hke hko
+      simp only [compSlot, hout] at hkd hke hko
+      cases assign_origin fc sn fac pp rp sfns ctor assigns h b hb with
+      | inEvent q hq ev' hev' ps' hps' e => subst e; simp [inAssign] at hkd
+      | provOut q hq _ ev' _ e =>
+        subst e
+        simp only [provOutAssign, resolveObj] at hko
+        injection hko with hko
+        exact hnames q (List.mem_filter.mp hq).1 hko.symm
+      | mcEncOut q hq _ ev' _ e =>
+        subst e
+        simp only [mcEncOutAssign, resolveObj] at hko
+        injection hko with hko
+        exact hnames q (List.mem_filter.mp hq).1 hko.symm
+      | arbOut q _ _ hl => rw [hl.1] at hko; simp [resolveObj] at hko
+      | reqOut q _ ev' _ ps' _ e => subst e; simp [outAssign, resolveObj] at hko
+      | reqIn q _ ev' _ e => subst e; simp [reqInAssign] at hkd
+  exact requires_out_posted_then_delivered w n p.target p.name ev ps args hq hb hc
+    (by rw [← hlen, ← List.length_map (f := (·.name)), hnm, List.length_map]) (by rw [hnm]; exact hfn)
+
+
+/-! ### provides ports: out-events the component raises -/
+
+/-- every out-event of every plain multi-threaded provides port is referenced to the boundary member -/
+theorem prov_out_assigned (fc : FC) (sn : Str) (fac : Facilities) (pp rp : List CppPortItf) (sfns : Ids)
+    (ctor : CppGen.Constructor) (assigns : List Assign)
+    (h : createConstructor fc sn fac pp rp sfns = .ok (ctor, assigns))
+    (p : CppPortItf) (hp : p ∈ mtsPorts pp) (hmc : p.isMc = false) (ev : Event) (hev : ev ∈ outEvents p.dzn.itf) :
+    provOutAssign p ev ∈ assigns := by
+  obtain ⟨inPlain, outReq, inMc, outMc, h1, h2, h3, h4, rfl⟩ := createConstructor_inv fc sn fac pp rp sfns ctor assigns h
+  have hp' : p ∈ (mtsPorts pp).filter (!·.isMc) := List.mem_filter.mpr ⟨hp, by simp [hmc]⟩
+  simp only [List.mem_append]
+  refine Or.inl (Or.inl (Or.inl (Or.inl (Or.inl (Or.inr ?_)))))
+  exact List.mem_flatten.mpr ⟨stdrefProvidesOut p, List.mem_map.mpr ⟨p, hp', rfl⟩,
+    by rw [stdrefProvidesOut_eq]; exact List.mem_map.mpr ⟨ev, hev, rfl⟩⟩
+
+/-- **C01 for the generated constructor** (component → environment, multi-threaded provides port
+    that is not the multi-client port): once the user has bound the out-event `ev` of the boundary
+    port, an out-event the wrapped component raises on its port `p` reaches exactly that handler,
+    once, with the arguments intact. -/
+theorem generated_forwards_provides_out (fc : FC) (sn : Str) (fac : Facilities) (pp rp : List CppPortItf) (sfns : Ids)
+    (ctor : CppGen.Constructor) (assigns : List Assign)
+    (h : createConstructor fc sn fac pp rp sfns = .ok (ctor, assigns))
+    (ir : ShellIR) (hpp : ir.provides = pp) (hrp : ir.requires = rp) (has : ir.ctorAssigns = assigns)
+    (p : CppPortItf) (hp : p ∈ mtsPorts pp) (hmc : p.isMc = false) (ev : Event) (hev : ev ∈ outEvents p.dzn.itf)
+    (hninj : ∀ q ∈ pp ++ rp, q.name = p.name → q = p)
+    (hevu : ∀ e ∈ p.dzn.itf.events, e.name = ev.name → evDirOf e = .out → e = ev)
+    (allPorts : List (Port × InterfaceD))
+    (gi : Option Nat) (pump runtime : Bool) (name : Str) (extra : Bool) (n : Nat)
+    (hf : facilitiesCheck ir.origin ir.structName pump runtime = none)
+    (args : List Val) :
+    ∃ w, construct ir allPorts gi pump runtime none name extra = .ok w ∧
+      let w' := w.set ⟨.bnd p.target, .out, ev.name⟩ (.scripted .env p.name ev)     -- the user's binding
+      invoke (n + 2) w' ⟨.enc p.name, .out, ev.name⟩ args =
+        ((scriptedRun w' .env p.name ev args).1,
+         .ok (scriptedRun w' .env p.name ev args).2.1 (scriptedRun w' .env p.name ev args).2.2) := by
+  obtain ⟨hevm, hevd⟩ := mem_outEvents _ _ hev
+  have hout : evDirOf ev = .out := evDirOf_out ev hevd
+  have hmem := prov_out_assigned fc sn fac pp rp sfns ctor assigns h p hp hmc ev hev
+  have hppmem : p ∈ pp := (List.mem_filter.mp hp).1
+  have hfind : ∀ s : Slot, s.obj = .enc p.name → s.dir = .out → s.ev = ev.name →
+      findEvent (ir.provides ++ ir.requires) s = some ev := by
+    intro s ho hd he
+    unfold findEvent
+    simp only [ho, hpp, hrp]
+    rw [find?_unique (pp ++ rp) (fun q => decide (q.name = p.name)) p (by simp [hppmem]) (by simp)
+          (fun q hq hqt => hninj q hq (by simpa using hqt))]
+    simp only [Option.bind]
+    rw [he, hd]
+    exact find?_unique _ _ ev hevm (by simp [hout]) (fun e he' hq => by
+      simp only [decide_eq_true_eq] at hq
+      exact hevu e he' hq.1 hq.2)
+  obtain ⟨w, hw, _, hassign, _⟩ := constructed_store ir allPorts gi pump runtime name extra hf
+  refine ⟨w, hw, ?_⟩
+  have he : w.get ⟨.enc p.name, .out, ev.name⟩ = some (.ir (.ref ⟨.bnd p.target, .out, ev.name⟩) ev [] []) := by
+    have := hassign (provOutAssign p ev) (by rw [has]; exact hmem) ev (hfind _ rfl rfl rfl) (by simp [provOutAssign]) ?_
+    · exact this
+    · intro b hb hk
+      rw [has] at hb
+      obtain ⟨hkd, hke, hko⟩ := resolveSlot_obj b.lhs
+      rw [hk] at hkd hke hko
+      cases assign_origin fc sn fac pp rp sfns ctor assigns h b hb with
+      | inEvent q hq ev' hev' ps' hps' e => subst e; simp [inAssign, provOutAssign, resolveSlot] at hkd
+      | arbOut q _ _ hl => rw [hl.1] at hko; simp [provOutAssign, resolveObj, resolveSlot] at hko
+      | reqOut q _ ev' _ ps' _ e => subst e; simp [outAssign, provOutAssign, resolveObj, resolveSlot] at hko
+      | reqIn q _ ev' _ e => subst e; simp [reqInAssign, provOutAssign, resolveSlot] at hkd
+      | mcEncOut q hq hqmc ev' _ e =>
+        subst e
+        have hqn : q.name = p.name := by
+          simp [mcEncOutAssign, provOutAssign, resolveObj, resolveSlot] at hko; exact hko.symm
+        have : q = p := hninj q (by simp [(List.mem_filter.mp hq).1]) hqn
+        subst this
+        rw [hmc] at hqmc; cases hqmc
+      | provOut q hq _ ev' hev' e =>
+        subst e
+        obtain ⟨hevm', hevd'⟩ := mem_outEvents _ _ hev'
+        have hqn : q.name = p.name := by
+          simp [provOutAssign, resolveObj, resolveSlot] at hko; exact hko.symm
+        have hqp : q = p := hninj q (by simp [(List.mem_filter.mp hq).1]) hqn
+        subst hqp
+        have hen : ev'.name = ev.name := by simpa [provOutAssign, resolveSlot] using hke.symm
+        have hee : ev' = ev := hevu ev' hevm' hen (evDirOf_out ev' hevd')
+        subst hee
+        exact ⟨rfl, by simp [provOutAssign], hfind _ rfl rfl rfl⟩
+  have hne : (⟨.enc p.name, .out, ev.name⟩ : RSlot) ≠ ⟨.bnd p.target, .out, ev.name⟩ := by
+    intro e; injection e with e1; cases e1
+  exact comp_to_env_mts_provides _ n p.target p.name ev args
+    (by rw [get_set_other _ _ _ _ hne]; exact he) (get_set_same _ _ _)
+
+
+/-! ### from `Builder.build` to the generated constructor -/
+
+/-- what a successful `buildShell` went through -/
+theorem buildShell_inv (fc : FC) (cfg : Config) (s : ShellFiles) (h : buildShell fc cfg = .ok s) :
+    ∃ enc de pp rp ctor,
+      createDznElements cfg fc enc = .ok de ∧
+      de.provides.mapM (fun d => createCppPortItf d (getBasename cfg.dezyneFilename ++ cfg.suffix) (distillateNs cfg.pfx).1) = .ok pp ∧
+      de.requires.mapM (fun d => createCppPortItf d (getBasename cfg.dezyneFilename ++ cfg.suffix) (distillateNs cfg.pfx).1) = .ok rp ∧
+      createConstructor fc (getBasename cfg.dezyneFilename ++ cfg.suffix)
+        (createFacilities cfg.origin (getBasename cfg.dezyneFilename ++ cfg.suffix)) pp rp (distillateNs cfg.pfx).1 = .ok (ctor, s.ir.ctorAssigns) ∧
+      s.ir.provides = pp ∧ s.ir.requires = rp ∧ s.ir.origin = cfg.origin ∧
+      s.ir.structName = getBasename cfg.dezyneFilename ++ cfg.suffix ∧ s.allPorts = de.allPorts := by
+  unfold buildShell at h
+  simp only [bind, Except.bind, pure, Except.pure] at h
+  split at h
+  · cases h
+  split at h
+  · cases h
+  rename_i enc henc
+  split at h
+  · cases h
+  rename_i de hde
+  split at h
+  · cases h
+  split at h
+  · cases h
+  rename_i pp hpp
+  split at h
+  · cases h
+  rename_i rp hrp
+  split at h
+  · cases h
+  rename_i hl hhl
+  split at h
+  · cases h
+  rename_i ca hca
+  injection h with h
+  subst h
+  obtain ⟨ctor, assigns⟩ := ca
+  exact ⟨enc, de, pp, rp, ctor, hde, hpp, hrp, hca, rfl, rfl, rfl, rfl, rfl⟩
+
+
+
+/-- invariant of the per-port loop of `create_dzn_elements`: every descriptor stems from a port of
+    the encapsulee, carries the interface its type name denotes, and sits on its own side -/
+def InAll (fc : FC) (scope : Ids) (ports : List Port) (acc : List DznPortItf × List DznPortItf) : Prop :=
+  (∀ d ∈ acc.1 ++ acc.2, d.port ∈ ports ∧
+      getSingle (findFqn fc d.port.typeName scope) (some isInterface) = .ok (.interface d.itf)) ∧
+  (∀ d ∈ acc.1, d.port.dir = .provides) ∧ (∀ d ∈ acc.2, d.port.dir = .requires ∧ d.mc = none)
+
+theorem mkDznPortItf_all (p i s mc d) (h : mkDznPortItf p i s mc = .ok d) : d.port = p ∧ d.itf = i ∧ d.sem = s ∧ d.mc = mc := by
+  unfold mkDznPortItf at h; split at h
+  · cases h
+  · injection h with h; subst h; exact ⟨rfl, rfl, rfl, rfl⟩
+
+theorem processPort_inall (cfg fc scope sems ports acc port r) (hp : port ∈ ports) (hacc : InAll fc scope ports acc)
+    (h : processPort cfg fc scope sems acc port = .ok r) : InAll fc scope ports r := by
+  unfold processPort at h
+  simp only [bind, Except.bind, pure, Except.pure] at h
+  split at h
+  · cases h
+  rename_i dd hgs
+  split at h
+  · rename_i itf
+    split at h
+    · rename_i hprov
+      split at h
+      · cases h
+      split at h
+      · cases h
+      rename_i s hs
+      split at h
+      · cases h
+      · rename_i d hd
+        injection h with h; subst h
+        obtain ⟨e1, e2, _, _⟩ := mkDznPortItf_all _ _ _ _ _ hd
+        refine ⟨?_, ?_, hacc.2.2⟩
+        · intro x hx
+          simp only [List.mem_append, List.mem_singleton] at hx
+          rcases hx with (hx | hx) | hx
+          · exact hacc.1 x (by simp [hx])
+          · subst hx; rw [e1, e2]; exact ⟨hp, hgs⟩
+          · exact hacc.1 x (by simp [hx])
+        · intro x hx
+          simp only [List.mem_append, List.mem_singleton] at hx
+          rcases hx with hx | hx
+          · exact hacc.2.1 x hx
+          · subst hx; rw [e1]; exact hprov
+    · rename_i hnprov
+      split at h
+      · split at h
+        · cases h
+        rename_i s hs
+        split at h
+        · cases h
+        · rename_i d hd
+          injection h with h; subst h
+          obtain ⟨e1, e2, _, e4⟩ := mkDznPortItf_all _ _ _ _ _ hd
+          refine ⟨?_, hacc.2.1, ?_⟩
+          · intro x hx
+            simp only [List.mem_append, List.mem_singleton] at hx
+            rcases hx with hx | hx | hx
+            · exact hacc.1 x (by simp [hx])
+            · exact hacc.1 x (by simp [hx])
+            · subst hx; rw [e1, e2]; exact ⟨hp, hgs⟩
+          · intro x hx
+            simp only [List.mem_append, List.mem_singleton] at hx
+            rcases hx with hx | hx
+            · exact hacc.2.2 x hx
+            · subst hx; rw [e1]
+              refine ⟨?_, e4⟩
+              cases hdir : port.dir with
+              | provides => exact absurd hdir hnprov
+              | requires => rfl
+      · injection h with h; subst h; exact hacc
+  · cases h
+
+theorem foldlM_inall (cfg fc scope sems) (ports l : List Port) (acc r) (hl : ∀ p ∈ l, p ∈ ports)
+    (hacc : InAll fc scope ports acc)
+    (h : l.foldlM (processPort cfg fc scope sems) acc = .ok r) : InAll fc scope ports r := by
+  induction l generalizing acc with
+  | nil => simp [List.foldlM_nil, pure, Except.pure] at h; subst h; exact hacc
+  | cons a t ih =>
+    rw [List.foldlM_cons] at h
+    simp only [bind, Except.bind] at h
+    split at h
+    · cases h
+    · rename_i acc' ha
+      exact ih acc' (fun p hp => hl p (by simp [hp]))
+        (processPort_inall _ _ _ _ _ _ _ _ (hl a (by simp)) hacc ha) h
+
+/-- every exposed port descriptor of a successful `create_dzn_elements` is listed, with its interface,
+    among `allPorts`, and stands on its own side -/
+theorem elements_in_allPorts (cfg fc enc de) (h : createDznElements cfg fc enc = .ok de) :
+    (∀ d ∈ de.provides ++ de.requires, (d.port, d.itf) ∈ de.allPorts) ∧
+    (∀ d ∈ de.provides, d.port.dir = .provides) ∧ (∀ d ∈ de.requires, d.port.dir = .requires ∧ d.mc = none) := by
+  unfold createDznElements at h
+  simp only [bind, Except.bind, pure, Except.pure] at h
+  split at h
+  · cases h
+  split at h
+  · cases h
+  rename_i sems hsems
+  split at h
+  · cases h
+  rename_i r hr
+  split at h
+  · cases h
+  · injection h with h; subst h
+    have inv := foldlM_inall cfg fc enc.parent.fqn sems (Decl.ports enc) (Decl.ports enc) ([], []) r (fun p hp => hp)
+      ⟨(by intro d hd; simp at hd), (by intro d hd; cases hd), (by intro d hd; cases hd)⟩ hr
+    refine ⟨?_, inv.2.1, inv.2.2⟩
+    intro d hd
+    obtain ⟨hmem, hgs⟩ := inv.1 d hd
+    simp only
+    exact List.mem_filterMap.mpr ⟨d.port, hmem, by rw [hgs]⟩
+
+
+theorem createCppPortItf_dzn (d : DznPortItf) (sn : Str) (sfns : Ids) (p : CppPortItf)
+    (h : createCppPortItf d sn sfns = .ok p) : p.dzn = d := by
+  unfold createCppPortItf at h
+  simp only [bind, Except.bind, pure, Except.pure] at h
+  split at h
+  · cases h
+  · split at h <;> (injection h with h; subst h; rfl)
+
+/-- **C01 at the level of `Builder.build`** (environment → component): for every model and
+    configuration the builder accepts, in the shell constructed from the generated wiring a client's
+    call of an in-event on a multi-threaded (non multi-client) provides port is executed by the
+    wrapped component's same-named event of the same-named port exactly once, in dispatcher
+    context, arguments intact and in declared order, reply and out/inout values carried back.
+    Hypotheses: Dezyne's well-formedness rules on the parsed model (unique event names per
+    interface, unique formal names, unique port names) and no boundary-member collision (K-2). -/
+theorem build_forwards_in_event (fc : FC) (cfg : Config) (b : BuildResult) (h : build fc cfg = .ok b)
+    (p : CppPortItf) (hp : p ∈ b.ir.provides) (hsem : p.dzn.sem = .mts) (hmc : p.isMc = false)
+    (ev : Event) (hev : ev ∈ inEvents p.dzn.itf)
+    (hinj : ∀ q ∈ b.ir.provides ++ b.ir.requires, q.target = p.target → q = p)
+    (hnames : ∀ q ∈ b.ir.requires, q.name ≠ p.name)
+    (hevu : ∀ e ∈ p.dzn.itf.events, e.name = ev.name → evDirOf e = .in_ → e = ev)
+    (hfn : (ev.formals.map (·.name)).Nodup)
+    (hu : UniqueEvents b.allPorts)
+    (pump runtime : Bool) (name : Str) (extra : Bool) (n : Nat)
+    (hf : facilitiesCheck b.ir.origin b.ir.structName pump runtime = none)
+    (args : List Val) (hlen : ev.formals.length = args.length) :
+    ∃ w ps, construct b.ir b.allPorts b.grantIndex pump runtime none name extra = .ok w ∧
+      ps.map (·.name) = ev.formals.map (·.name) ∧
+      invoke (n + 3) w ⟨.bnd p.target, .in_, ev.name⟩ args =
+        ({ w with shellCalls := w.shellCalls + 1, pumpTouched := true, executed := w.executed + 1,
+                  out := obsLine .comp p.name ev args true :: w.out },
+         .ok (if isVoid ev then none else some (w.reply true p.name ev.name))
+             (writeBack ps args (ps.map (·.name)) (rewritten ev args))) := by
+  unfold build at h
+  simp only [bind, Except.bind, pure, Except.pure] at h
+  split at h
+  · cases h
+  rename_i s hs
+  injection h with h
+  subst h
+  obtain ⟨enc, de, pp, rp, ctor, hde, hpp, hrp, hcc, e1, e2, _, _, e5⟩ := buildShell_inv fc cfg s hs
+  simp only at hp hinj hnames hu hf ⊢
+  obtain ⟨hall, hprov, _⟩ := elements_in_allPorts cfg fc enc de hde
+  rw [e1] at hp
+  obtain ⟨d, hd, hcp⟩ := mapM_mem _ _ _ hpp p hp
+  have hdz := createCppPortItf_dzn d _ _ p hcp
+  have hpa : (p.dzn.port, p.dzn.itf) ∈ s.allPorts := by
+    rw [e5, hdz]; exact hall d (by simp [hd])
+  have hdir : p.dzn.port.dir = .provides := by rw [hdz]; exact hprov d hd
+  exact generated_forwards_in_event fc _ _ pp rp _ ctor s.ir.ctorAssigns hcc s.ir e1 e2 rfl p
+    (List.mem_filter.mpr ⟨hp, by simp [hsem]⟩) hmc ev hev (by rw [← e1, ← e2]; exact hinj) (by rw [← e2]; exact hnames)
+    hevu hfn s.allPorts hpa hu hdir s.grantIndex pump runtime name extra n hf args hlen
+
+
+/-- the first steps shared by the `build`-level statements -/
+theorem build_inv (fc : FC) (cfg : Config) (b : BuildResult) (h : build fc cfg = .ok b) :
+    ∃ enc de pp rp ctor sn fac sfns,
+      createDznElements cfg fc enc = .ok de ∧
+      de.provides.mapM (fun d => createCppPortItf d sn sfns) = .ok pp ∧
+      de.requires.mapM (fun d => createCppPortItf d sn sfns) = .ok rp ∧
+      createConstructor fc sn fac pp rp sfns = .ok (ctor, b.ir.ctorAssigns) ∧
+      b.ir.provides = pp ∧ b.ir.requires = rp ∧ b.allPorts = de.allPorts := by
+  unfold build at h
+  simp only [bind, Except.bind, pure, Except.pure] at h
+  split at h
+  · cases h
+  rename_i s hs
+  injection h with h
+  subst h
+  obtain ⟨enc, de, pp, rp, ctor, hde, hpp, hrp, hcc, e1, e2, _, _, e5⟩ := buildShell_inv fc cfg s hs
+  exact ⟨enc, de, pp, rp, ctor, _, _, _, hde, hpp, hrp, hcc, e1, e2, e5⟩
+
+/-- **C01 at the level of `Builder.build`** (peer → component, multi-threaded requires port) -/
+theorem build_forwards_requires_out (fc : FC) (cfg : Config) (b : BuildResult) (h : build fc cfg = .ok b)
+    (p : CppPortItf) (hp : p ∈ b.ir.requires) (hsem : p.dzn.sem = .mts)
+    (ev : Event) (hev : ev ∈ outEvents p.dzn.itf)
+    (hinj : ∀ q ∈ b.ir.provides ++ b.ir.requires, q.target = p.target → q = p)
+    (hnames : ∀ q ∈ b.ir.provides, q.name ≠ p.name)
+    (hevu : ∀ e ∈ p.dzn.itf.events, e.name = ev.name → evDirOf e = .out → e = ev)
+    (hfn : (ev.formals.map (·.name)).Nodup) (hallin : ∀ f ∈ ev.formals, f.dir = .in_)
+    (hu : UniqueEvents b.allPorts)
+    (pump runtime : Bool) (name : Str) (extra : Bool) (n : Nat)
+    (hf : facilitiesCheck b.ir.origin b.ir.structName pump runtime = none)
+    (args : List Val) (hlen : ev.formals.length = args.length) :
+    ∃ w, construct b.ir b.allPorts b.grantIndex pump runtime none name extra = .ok w ∧
+      let w1 : World := { w with posted := w.posted + 1, pumpTouched := true,
+                                 queue := [{ callee := ⟨.enc p.name, .out, ev.name⟩, args := args, dangling := false }] }
+      invoke (n + 1) w ⟨.bnd p.target, .out, ev.name⟩ args = (w1, .ok none args) ∧
+      drain (n + 3) w1 =
+        ({ w with posted := w.posted + 1, pumpTouched := true, queue := [], executed := w.executed + 1,
+                  out := obsLine .comp p.name ev args true :: w.out }, none) := by
+  obtain ⟨enc, de, pp, rp, ctor, sn, fac, sfns, hde, hpp, hrp, hcc, e1, e2, e5⟩ := build_inv fc cfg b h
+  obtain ⟨hall, _, hreq⟩ := elements_in_allPorts cfg fc enc de hde
+  rw [e2] at hp
+  obtain ⟨d, hd, hcp⟩ := mapM_mem _ _ _ hrp p hp
+  have hdz := createCppPortItf_dzn d _ _ p hcp
+  have hpa : (p.dzn.port, p.dzn.itf) ∈ b.allPorts := by
+    rw [e5, hdz]; exact hall d (by simp [hd])
+  have hdir : p.dzn.port.dir = .requires := by rw [hdz]; exact (hreq d hd).1
+  exact generated_forwards_requires_out fc sn fac pp rp sfns ctor b.ir.ctorAssigns hcc b.ir e1 e2 rfl p
+    (List.mem_filter.mpr ⟨hp, by simp [hsem]⟩) ev hev (by rw [← e1, ← e2]; exact hinj) (by rw [← e1]; exact hnames)
+    hevu hfn hallin b.allPorts hpa hu hdir b.grantIndex pump runtime name extra n hf args hlen
+
+/-- **C01 at the level of `Builder.build`** (component → environment, multi-threaded provides port) -/
+theorem build_forwards_provides_out (fc : FC) (cfg : Config) (b : BuildResult) (h : build fc cfg = .ok b)
+    (p : CppPortItf) (hp : p ∈ b.ir.provides) (hsem : p.dzn.sem = .mts) (hmc : p.isMc = false)
+    (ev : Event) (hev : ev ∈ outEvents p.dzn.itf)
+    (hninj : ∀ q ∈ b.ir.provides ++ b.ir.requires, q.name = p.name → q = p)
+    (hevu : ∀ e ∈ p.dzn.itf.events, e.name = ev.name → evDirOf e = .out → e = ev)
+    (pump runtime : Bool) (name : Str) (extra : Bool) (n : Nat)
+    (hf : facilitiesCheck b.ir.origin b.ir.structName pump runtime = none)
+    (args : List Val) :
+    ∃ w, construct b.ir b.allPorts b.grantIndex pump runtime none name extra = .ok w ∧
+      let w' := w.set ⟨.bnd p.target, .out, ev.name⟩ (.scripted .env p.name ev)
+      invoke (n + 2) w' ⟨.enc p.name, .out, ev.name⟩ args =
+        ((scriptedRun w' .env p.name ev args).1,
+         .ok (scriptedRun w' .env p.name ev args).2.1 (scriptedRun w' .env p.name ev args).2.2) := by
+  obtain ⟨enc, de, pp, rp, ctor, sn, fac, sfns, hde, hpp, hrp, hcc, e1, e2, e5⟩ := build_inv fc cfg b h
+  rw [e1] at hp
+  exact generated_forwards_provides_out fc sn fac pp rp sfns ctor b.ir.ctorAssigns hcc b.ir e1 e2 rfl p
+    (List.mem_filter.mpr ⟨hp, by simp [hsem]⟩) hmc ev hev (by rw [← e1, ← e2]; exact hninj) hevu
+    b.allPorts b.grantIndex pump runtime name extra n hf args
 
 end C01
